@@ -257,16 +257,22 @@ def rw_update_closure(body, cnt):
         c = match_close(msk, o)
         inner = body[o + 1:c]
         imsk = msk[o + 1:c]
-        cm = re.match(r'\s*(.*?)\s*,\s*\|\s*(mut\s+)?(\w+)(\s*:\s*[^|]+)?\|\s*->\s*([^{]+?)\s*\{', imsk, re.S)
+        cm = re.match(r'\s*(.*?)\s*,\s*\|\s*(mut\s+)?(\w+)(\s*:\s*[^|]+)?\|\s*(->\s*([^{]+?)\s*)?\{', imsk, re.S)
         if not cm: raise ExtractError('R1: unsupported update() shape: ' + inner[:80])
         args = inner[cm.start(1):cm.end(1)]
         var = cm.group(3); mut = 'mut ' if cm.group(2) else ''
         bo = o + 1 + cm.end() - 1
         bc = match_close(msk, bo)
         block = body[bo:bc + 1]
-        if not re.match(r'\s*\)\s*\?', msk[bc + 1:]):
-            raise ExtractError('R1: update() not followed by ?')
-        q = c + 1 + msk[c + 1:].index('?')
+        if not re.match(r'\s*,?\s*\)', msk[bc + 1:]):
+            raise ExtractError('R1: unexpected text after update() closure')
+        tail = False
+        if re.match(r'\s*\?', msk[c + 1:]):
+            q = c + 1 + msk[c + 1:].index('?')
+        elif re.match(r'\s*\}\s*$', msk[c + 1:]):
+            tail = True; q = c          # the call is the tail expression of the function: its Result is returned
+        else:
+            raise ExtractError('R1: update() neither followed by ? nor in tail position')
         item = m.group(1)
         nargs = len([a for a in split_top(args) if a.strip()])
         upper = item.upper() == item
@@ -276,8 +282,10 @@ def rw_update_closure(body, cnt):
             load = '%s.may_load(%s)?' % (item, args); rid = 'R2'
         # a `return Err(e)` inside the closure leaves the closure; with the trailing `?` it
         # leaves the function with the same error: identical once inlined.
-        repl = ('{ let %s%s = %s; let __upd = %s?; %s.save(%s, &__upd)?; }'
-                % (mut, var, load, block, item, args))
+        ret = (cm.group(6) or '').strip()
+        inner_v = ('let __r: %s = %s; let __upd = __r?;' % (ret, block)) if ret else ('let __upd = %s?;' % block)
+        repl = ('{ let %s%s = %s; %s %s.save(%s, &__upd)?; %s}'
+                % (mut, var, load, inner_v, item, args, 'Ok(__upd) ' if tail else ''))
         body = body[:m.start()] + repl + body[q + 1:]
         cnt.hit(rid)
 
@@ -698,9 +706,19 @@ class Unit:
         sig = sig.replace('&mut dyn Storage', '&mut Storage').replace('&dyn Storage', '&Storage').replace('&dyn Api', '&Api')
         if 'dyn' in f['sig']: cnt.hit('D2')
         sig = re.sub(r'pub\s*\(crate\)\s*', 'pub ', sig)
+        if opts.get('as'):
+            sig = re.sub(r'\bfn\s+' + re.escape(name) + r'\b', 'fn ' + opts['as'], sig, count=1)
+        # pre-rewrites (ids starting with P) run before the generic table
+        for rid, pat, rep, count in spec['rewrites']:
+            if not rid.startswith('P'): continue
+            body2, n = re.subn(pat, rep, body, flags=re.S)
+            if n == 0 or (count != '+' and n != int(count)):
+                raise ExtractError(f'{name}: pre-rewrite {rid} /{pat}/ matched {n} times (expected {count})')
+            cnt.hit(rid, n); body = body2
         for fnrw in GENERIC:
             body = fnrw(body, cnt)
         for rid, pat, rep, count in spec['rewrites']:
+            if rid.startswith('P'): continue
             sig, n0 = re.subn(pat, rep, sig, flags=re.S)
             body2, n = re.subn(pat, rep, body, flags=re.S)
             n += n0
@@ -762,7 +780,9 @@ class Unit:
             inserts.append((off, 'hint', h['text']))
         inserts.sort(key=lambda x: x[0])
         # emit
-        fnrec = dict(kind='fn', name=name, file=file, lines=f['lines'], impl=opts.get('impl'))
+        src_name = name
+        name = opts.get('as') or name
+        fnrec = dict(kind='fn', name=name, src_name=src_name, file=file, lines=f['lines'], impl=opts.get('impl'))
         self.functions.append(fnrec)
         self.rewrites[name] = cnt
         if opts.get('impl'):
